@@ -461,3 +461,79 @@ def extra_units():
     # and strategy tags, so that per-cell files of the two mates stay synchronised) is C02's contract of every registered
     # strategy, re-verified under this property
     return [share(c19.write, PROP), share(c19.prune, PROP), share(c19.close, PROP)] + [share(u, PROP) for u in c02.UNITS + c02.extra_units()]
+
+
+# ------------------------------------------------------------------------------ fromRawFastq: an unknown sequencing index is a rejection
+# The loader writes a pair to the rejects only when the strategy ends in NonMultiplexable; any other exception loses the pair.
+# TaggedRecord.fromRawFastq (called by every strategy) must therefore end in NonMultiplexable - nothing else - when the index of
+# an Illumina header is not whitelisted, also after it has tried the other header formats.
+FBM = 'singlecellmultiomics/modularDemultiplexer/baseDemultiplexMethods.py'
+
+
+def raw_setup(eng):
+    eng.ghost.clear()
+    fields = [segstr.register_atom(eng, named(STR, 'hdr_%d' % i), ';: \t\n\r\x0b\x0c_') for i in range(10)]
+    index = segstr.register_atom(eng, named(STR, 'hdr_index'), ';: \t\n\r\x0b\x0c_')
+    for f in fields + [index]:
+        eng.assume(z3.Length(f.z) >= 1)
+    hdr = segstr.build(['@'] + sum(([':' if i else '', f] for i, f in enumerate(fields[:7])), []) + [' ']
+                       + sum(([':' if i else '', f] for i, f in enumerate(fields[7:])), []) + [':', index])
+    eng.spec_env['HDR'] = hdr
+    eng.spec_env['KNOWN'] = named(BOOL, 'index_known')
+
+    def lookup(e, o, *a, **k):
+        if e.branch(e.spec_env['KNOWN'].z):
+            return (named(STR, 'index_identifier'), named(STR, 'corrected_index'), named(INT, 'index_distance'))
+        return (None, None, None)
+    stubs.STUBS['IndexParser'] = {'methods': {'getIndexCorrectedBarcodeAndHammingDistance': lookup}, 'props': {}, 'setters': {}}
+
+    def _int(e, a, k, n):
+        if a and isinstance(a[0], Sym) and a[0].z.eq(index.z):
+            raise PyRaise('ValueError', 'invalid literal for int()')
+        return e.call(e.builtins()['int'], a, k)
+    eng.spec_env['int'] = Builtin('int', _int)
+
+
+raw_fastq = Contract(
+    PROP, FBM + '::TaggedRecord.fromRawFastq', name='TaggedRecord.fromRawFastq[Illumina header, index parser]',
+    params={'self': ('obj', 'TaggedRecord', {'tags': ('const', None)}, FBM),
+            'fastqRecord': lambda e, n: Obj('FastqRecord', {'header': e.spec_env['HDR'], 'sequence': 'ACGT', 'plus': '+', 'qual': 'IIII'}),
+            'indexFileParser': lambda e, n: (lambda o: (setattr(o, 'vc_immutable', True), o)[1])(Obj('IndexParser', {})),
+            'indexFileAlias': ('const', 'indices')},
+    setup=raw_setup,
+    pre_state=lambda eng, fr: fr.env['self'].attrs.__setitem__('tags', {}),
+    ensures={'a_whitelisted_index_is_accepted': 'KNOWN'},
+    raises={'NonMultiplexable': 'not KNOWN'},
+    assumptions=['Illumina header of the common form; the index is a DNA sequence (int() fails on it); header fields contain no '
+                 'underscore (a 3-DEC header has four)'],
+)
+UNITS.append(raw_fastq)
+
+
+def raw_fastq_replay(inputs, clause):
+    """real TaggedRecord.fromRawFastq on the model's header (printable stand-ins of the same shape) with an index parser that
+    knows / does not know the index"""
+    mod = __import__('singlecellmultiomics.modularDemultiplexer.baseDemultiplexMethods', fromlist=['x'])
+    fqm = __import__('singlecellmultiomics.fastqProcessing.fastqIterator', fromlist=['x'])
+    hdr = str((inputs.get('ghost') or {}).get('HDR') or '@NS500:1:FC:1:11101:100:200 1:N:0:ACGT')
+    known = bool((inputs.get('ghost') or {}).get('KNOWN'))
+    rows = []
+    for h in (hdr, '@NS500:1:FC:1:11101:100:200 1:N:0:ACGT', '@IsoSeq7:1:FC:1:11101:100:200 1:N:0:ACGT'):
+        class P:
+            def getIndexCorrectedBarcodeAndHammingDistance(self, *a, **k):
+                return ('7', 'ACGT', 0) if known else (None, None, None)
+        tr = mod.TaggedRecord(mod.TagDefinitions)
+        try:
+            tr.fromRawFastq(fqm.FastqRecord(h, 'ACGT', '+', 'IIII'), indexFileParser=P(), indexFileAlias='x')
+            out = 'accepted'
+        except Exception as e:      # noqa: BLE001
+            out = type(e).__name__
+        rows.append({'header': h, 'index_known': known, 'outcome': out})
+    want = 'accepted' if known else 'NonMultiplexable'
+    obs = {'outcome': 'return', 'value': rows, 'expected_outcome': want}
+    if any(r['outcome'] != want for r in rows):
+        return {'status': 'confirmed', 'observed': obs, 'failed': [{'clause': clause}]}
+    return {'status': 'not-reproduced', 'observed': obs}
+
+
+raw_fastq.replay = raw_fastq_replay
